@@ -149,6 +149,8 @@ where
     iter: LineColIterator<io::Bytes<R>>,
     /// Temporary storage of peeked byte.
     ch: Option<u8>,
+    /// Position before the peeked byte.
+    ch_start: Position,
 }
 
 /// S-expression input source that reads from a slice of bytes.
@@ -184,6 +186,7 @@ where
         IoRead {
             iter: LineColIterator::new(reader.bytes()),
             ch: None,
+            ch_start: Position { line: 1, column: 0 },
         }
     }
 }
@@ -262,14 +265,18 @@ where
     fn peek(&mut self) -> Result<Option<u8>> {
         match self.ch {
             Some(ch) => Ok(Some(ch)),
-            None => match self.iter.next() {
-                Some(Err(err)) => Err(Error::io(err)),
-                Some(Ok(ch)) => {
-                    self.ch = Some(ch);
-                    Ok(self.ch)
+            None => {
+                let start = self.peek_position();
+                match self.iter.next() {
+                    Some(Err(err)) => Err(Error::io(err)),
+                    Some(Ok(ch)) => {
+                        self.ch = Some(ch);
+                        self.ch_start = start;
+                        Ok(self.ch)
+                    }
+                    None => Ok(None),
                 }
-                None => Ok(None),
-            },
+            }
         }
     }
 
@@ -279,16 +286,21 @@ where
     }
 
     fn position(&self) -> Position {
-        Position {
-            line: self.iter.line(),
-            column: self.iter.col(),
+        // The LineColIterator has already counted a peeked byte; report the
+        // position in front of it, as the other input sources do.
+        match self.ch {
+            Some(_) => self.ch_start,
+            None => self.peek_position(),
         }
     }
 
     fn peek_position(&self) -> Position {
         // The LineColIterator updates its position during peek() so it has the
         // right one here.
-        self.position()
+        Position {
+            line: self.iter.line(),
+            column: self.iter.col(),
+        }
     }
 
     fn byte_offset(&self) -> usize {
